@@ -2385,7 +2385,13 @@ class CycleDataset(Dataset):
 
     def __iter__(self, with_key=False):
         while True:
-            yield from self.input_dataset.__iter__(with_key=with_key)
+            empty = True
+            for example in self.input_dataset.__iter__(with_key=with_key):
+                empty = False
+                yield example
+            if empty:
+                # Nothing to repeat: stop instead of spinning forever
+                return
 
     @property
     def indexable(self) -> bool:
